@@ -59,7 +59,11 @@ def cases(draw):
         variants.append({"beta_f": draw(st.sampled_from([0.5, 0.8, 0.9])), "par_f": draw(st.sampled_from([0.5, 1.5, 2.0])),
                          "leaf": draw(st.sampled_from(["float", "numpy", "jax"]))})
     ops = []
-    for _ in range(draw(st.integers(4, 14))):
+    if draw(st.booleans()):
+        # guaranteed interleaving A, B, rebuild, A
+        ops = [{"op": "solve", "p": 0, "a": 0, "s": 0}, {"op": "solve", "p": 1, "a": 0, "s": 0},
+               {"op": "rebuild", "p": 0, "a": 0, "s": 0}, {"op": "solve", "p": 0, "a": 0, "s": 0}]
+    for _ in range(draw(st.integers(4, 12))):
         kind = draw(st.sampled_from(["solve", "solve", "simulate", "sas", "sas", "rebuild", "poison", "leafswap", "reuse_dict", "reuse_dict"]))
         ops.append({"op": kind, "p": draw(st.integers(0, nvar - 1)), "a": draw(st.integers(0, 1)), "s": draw(st.integers(0, 1))})
     return {"spec": spec.to_json(), "variants": variants, "agents": [draw(raw_agents(1, 4)), draw(raw_agents(2, 5))],
